@@ -72,6 +72,16 @@ Theorem C11_layout_denotes_netlist : forall its,
   /\ outputs (denote its) = output_decls its.
 Proof. exact denote_spec. Qed.
 
+(* the parsed circuit computes exactly what the text denotes: same input and output lists as the
+   netlist written down literally (definitions as the gate map), same gates, and every gate has
+   the same value under every (partial) assignment *)
+Theorem C11_layout_computes_netlist : forall its,
+  Forall (fun it => item_ok it = true) its -> NoDup (defined_labels its) ->
+  inputs (denote its) = inputs (netlist_of its) /\ outputs (denote its) = outputs (netlist_of its)
+  /\ (forall l, dget (gates (denote its)) l = dget (gates (netlist_of its)) l)
+  /\ forall a l v, Eval (denote its) a l v <-> Eval (netlist_of its) a l v.
+Proof. exact denote_computes_netlist. Qed.
+
 (* the order of the lines does not matter for the gates ... *)
 Theorem C11_layout_order_irrelevant : forall its its',
   Forall (fun it => item_ok it = true) its -> NoDup (defined_labels its) -> Permutation its its' ->
